@@ -797,3 +797,36 @@ Proof.
 Qed.
 
 End Proofs.
+
+(* the statements of Props/C12.v that combine several of the lemmas above *)
+Theorem failed_status_thrown :
+  forall (P : Type) (presume : P -> input -> outcome P) (plan_of : nat -> P)
+         (D : Type) (dev : D -> nat -> devmeth -> D * devres) (s : st P D) (sid : nat),
+    pardon s = false ->
+    exc_slot (fst (step presume plan_of dev s (EvStatus sid false))) = Some EFailedStatus /\
+    (forall (s1 : st P D) e r rest top pl,
+        exc_slot s1 = Some e -> resps s1 = r :: rest -> plans s1 = top :: pl ->
+        dstep P presume plan_of D dev s1 CAfterSleep =
+        aft_res P D (aft_s2 P D s1) true (frame_resume presume top (Throw e))).
+Proof.
+  intros P presume plan_of D dev s sid Hp. split; [exact (status_failure_armed P presume plan_of D dev s sid Hp)|].
+  intros s1 e r rest top pl. exact (slot_is_thrown P presume plan_of D dev s1 e r rest top pl).
+Qed.
+
+Theorem unhandled_exception_raised :
+  forall (P : Type) (presume : P -> input -> outcome P) (plan_of : nat -> P)
+         (D : Type) (dev : D -> nat -> devmeth -> D * devres),
+    (forall (s : st P D) e s' c' o, ordinary e -> dstep P presume plan_of D dev s (CExit (XExn e)) = inl (s', c', o) ->
+        c' = CFinalize (TReturn NO_RETURN) (Some e) /\ o = []) /\
+    (forall (s : st P D) r e s' o, finalize presume dev s r (Some e) = (s', o) ->
+        pc s' = PcDone (TRaise e) \/ pc s' = PcDone (TRaise ETransition)) /\
+    (forall (s : st P D) a e, pc s = PcDone (TRaise e) -> e <> ECancelled -> main_err s = None ->
+        match a with ACall _ | AResume => True | _ => False end ->
+        exists st_ d r, snd (step presume plan_of dev s (EvMainDone a)) = [OOut (OutRaise e) st_ d r]).
+Proof.
+  intros P presume plan_of D dev. split; [|split].
+  - exact (exit_raises P presume plan_of D dev).
+  - exact (finalize_raises P presume D dev).
+  - exact (main_done_raises P presume plan_of D dev).
+Qed.
+
